@@ -14,6 +14,7 @@ import (
 	applog "github.com/godaddy/asherah/go/appencryption/pkg/log"
 	smlog "github.com/godaddy/asherah/go/securememory/log"
 	"pgregory.net/rapid"
+	"verif/backing"
 	"verif/kit"
 	"verif/world"
 )
@@ -99,7 +100,9 @@ func runHistory(t *rapid.T) {
 	m := &mon{t: t, payloadKey: map[string]int{}, pairs: map[string]bool{}, drk: map[string]bool{}, ikFp: map[string]string{}, skFp: map[string]string{},
 		roleIK: map[string]bool{}, roleSK: map[string]bool{}, perIK: map[string]int{}, scan: kit.NewScanner()}
 	capture.take()
-	w := world.New(t, world.Options{MaxProcs: 2, NoRetainAEAD: true, PayloadGen: m.payload})
+	opts := world.Options{MaxProcs: 2, NoRetainAEAD: true, PayloadGen: m.payload}
+	defer backing.Use(t, &opts, 25)()
+	w := world.New(t, opts)
 	m.w = w
 	defer w.Teardown()
 	w.OnOp = m.after
